@@ -307,13 +307,20 @@ def shape(repo, chk):
             need(comps, 'points value at %s does not derive from a comprehension' % fi.loc(c))
             comp = comps[0]
             tv = comp.generators[0].target
-            need(isinstance(tv, ast.Name), 'points comprehension target is not a name')
             pm = parents_map(comp.elt)
+            refs = []
+            if isinstance(tv, ast.Name):
+                refs = [(n, n.slice.value) for n in ast.walk(comp.elt) if isinstance(n, ast.Subscript) and isinstance(n.value, ast.Name)
+                        and n.value.id == tv.id and isinstance(n.slice, ast.Constant)]
+            elif isinstance(tv, (ast.Tuple, ast.List)) and all(isinstance(e, ast.Name) for e in tv.elts):
+                names = [e.id for e in tv.elts]
+                refs = [(n, names.index(n.id)) for n in ast.walk(comp.elt) if isinstance(n, ast.Name) and n.id in names]
+            need(refs, 'points comprehension at %s does not reference coordinate components' % fi.loc(c))
+            refs.sort(key=lambda r: (r[0].lineno, r[0].col_offset))
             idx = []
             wrapped = []
-            for n in sorted((n for n in ast.walk(comp.elt) if isinstance(n, ast.Subscript) and isinstance(n.value, ast.Name)
-                             and n.value.id == tv.id and isinstance(n.slice, ast.Constant)), key=lambda n: (n.lineno, n.col_offset)):
-                idx.append(n.slice.value)
+            for n, i in refs:
+                idx.append(i)
                 anc = []
                 x = n
                 while x in pm:
